@@ -6,6 +6,7 @@ import (
 	"crypto/cipher"
 	"errors"
 	"fmt"
+	"strings"
 
 	kc "github.com/dapr/kit/crypto"
 	"github.com/dapr/kit/crypto/aescbcaead"
@@ -335,6 +336,10 @@ func runSymRoundTrip(j *judge, g group) {
 					j.viol(sigOf("DecryptSymmetric", a.name, "roundtrip-plaintext-differs"), "Decrypt(Encrypt(p)) != p", rpe)
 				} else {
 					rec.Count("sym.roundtrip.ok", 1)
+					if L == 17 && aad != nil && rec.WantSample() {
+						rec.Sample(map[string]any{"clause": "roundtrip+interop", "algorithm": a.name, "key": hx(key), "nonce": hx(nonce), "aad": hx(aad), "plaintext": hx(pt),
+							"kit_ciphertext": hx(e.ct), "kit_tag": hx(e.tag), "equals_reference": bytes.Equal(e.ct, rct) && bytes.Equal(e.tag, rtag), "kit_decrypts_reference_output": bytes.Equal(d2.pt, pt)})
+					}
 				}
 			}
 
@@ -438,6 +443,10 @@ func runSymTamper(j *judge, g group) {
 			if a.auth {
 				if j.reject("DecryptSymmetric", a.name, shape, [][]byte{d.pt}, d.err, d.pan, nil, rp) {
 					rec.Count("sym.tamper.rejected", 1)
+					if shape == "tag-bit-flip" && mi == 1 && strings.HasPrefix(detail, "tag byte 0 ") && rec.WantSample() {
+						rec.Sample(map[string]any{"clause": "tamper", "algorithm": a.name, "key": hx(key), "nonce": hx(in[2]), "aad": hx(in[3]), "ciphertext": hx(in[0]), "tag": hx(in[1]),
+							"valid_tag": hx(e.tag), "mutation": detail, "kit_error": errStr(d.err), "kit_output": hx(d.pt)})
+					}
 				}
 				return
 			}
